@@ -17,11 +17,13 @@ PAYLOAD_FIELDS = ('entity', 'value')
 
 
 class Gef:
-    def __init__(self, prog, fn, mirror=False):
+    def __init__(self, prog, fn, mirror=False, inline=False, stack=frozenset()):
         self.prog = prog
         self.fn = fn
         self.b = fn.body
         self.mirror = mirror
+        self.inline = inline
+        self.stack = stack
         self.memo = {}
 
     def name(self, s):
@@ -44,7 +46,7 @@ class Gef:
         k = v.kind
         prog = self.prog
         if k == 'param':
-            r = 'P%d' % v.args[0]
+            r = '<P%d>' % v.args[0]
         elif k == 'const':
             nm = (v.args[1] or '').split('::')[-1]
             if nm in ('EMPTY_REF', 'NIL_INDEX'):
@@ -52,7 +54,7 @@ class Gef:
             elif v.args[0] is not None:
                 r = '%s:%s' % (v.args[0], (v.ty or '').split('::')[-1])
             else:
-                r = str(v.args[2])
+                r = fam_erase(str(v.args[2]))
         elif k in ('load', 'ref'):
             root = v.args[0]
             path = [self.field(p) for p in v.args[1] if p != '*' and isinstance(p, str)]
@@ -65,6 +67,10 @@ class Gef:
             if 'PAYLOAD' in path:
                 path = path[:path.index('PAYLOAD') + 1]
             r = rs + ''.join('.' + p for p in path)
+            if k == 'load' and path:
+                ep = self.epoch(v, path[-1])
+                if ep:
+                    r += '@%d' % ep
         elif k == 'call':
             c = v.extra['callee']
             nm = c.get('name') or 'indirect'
@@ -81,6 +87,8 @@ class Gef:
                 else:
                     full = self.name((tgt.name if tgt is not None else nm))
                     args = [self.term(a, depth + 1, visiting) for a in v.args]
+                    if nm in ('eq', 'ne') and len(args) == 2:
+                        args = sorted(args)
                     # result of an effectful call is identified by its position among calls of that name
                     r = '%s(%s)' % (full, ','.join(args))
         elif k == 'bin':
@@ -105,8 +113,16 @@ class Gef:
             if v.id in visiting:
                 r = 'rec'
             else:
-                ops = sorted({self.term(a, depth + 1, visiting + (v.id,)) for a in v.args})
-                r = 'phi{%s}' % '|'.join(ops)
+                ops = set()
+                for a in v.args:
+                    t = self.term(a, depth + 1, visiting + (v.id,))
+                    if t.startswith('phi{') and t.endswith('}') and t.count('phi{') == 1:
+                        ops |= set(split_top(t[4:-1]))
+                    else:
+                        ops.add(t)
+                ops.discard('rec')
+                ops = sorted(ops)
+                r = ops[0] if len(ops) == 1 else 'phi{%s}' % '|'.join(ops)
         elif k == 'update':
             r = 'upd(%s;%s:=%s)' % (self.term(v.args[0], depth + 1, visiting), '.'.join(map(str, v.args[1])), self.term(v.args[2], depth + 1, visiting))
         elif k == 'escaped':
@@ -117,12 +133,35 @@ class Gef:
             self.memo[v.id] = r
         return r
 
+    def epoch(self, v, field):
+        """number of stores to the same field (of any node) that definitely precede this read"""
+        pt = v.extra.get('read_point', v.point)
+        if not pt:
+            return 0
+        n = 0
+        cfg = self.b.cfg
+        for st in self.b.stores:
+            f = st.fields()
+            if not f:
+                continue
+            last = self.field(f[-1]) if f[-1] not in PAYLOAD_FIELDS else 'PAYLOAD'
+            if 'PAYLOAD' in [self.field(x) for x in f]:
+                last = 'PAYLOAD'
+            if last != field:
+                continue
+            if (st.point[0] == pt[0] and st.point[1] < pt[1]) or (st.point[0] != pt[0] and cfg.dominates(st.point[0], pt[0])):
+                n += 1
+        return n
+
     def cond(self, d, truth):
         """normalised (term, truth)"""
         d = strip(d)
         while d.kind == 'un' and d.args[0] == 'Not':
             d = strip(d.args[1])
             truth = not truth
+        if d.kind == 'call' and d.callee_name() == 'ne' and len(d.args) == 2:
+            a, b2 = sorted([self.term(d.args[0]), self.term(d.args[1])])
+            return ('eq(%s,%s)' % (a, b2), not truth)
         if d.kind == 'bin' and d.args[0] == 'Ne':
             a, b2 = self.term(d.args[1]), self.term(d.args[2])
             if a > b2:
@@ -175,12 +214,23 @@ class Gef:
             if tgt is not None:
                 from rules.live import mutates
                 if mutates(prog, tgt) or any((a.ty or '').startswith('&mut') for a in c.args):
-                    ev.append((c.point, 'call', '%s(%s)' % (self.name(tgt.name), ','.join(self.term(a) for a in c.args[1:]))))
+                    if self.inline and tgt.path not in self.stack and len(self.stack) < 3 and not tgt.is_closure and tgt.path != self.fn.path:
+                        sub = Gef(prog, tgt, self.mirror, inline=True, stack=self.stack | {self.fn.path}).effects()
+                        argt = {'<P%d>' % (i + 1): self.term(a) for i, a in enumerate(c.args)}
+                        for (g2, kind2, text2) in sub:
+                            if kind2 == 'ret':
+                                continue
+                            g3 = tuple(sorted(((subst(ct, argt), tr) for ct, tr in g2), key=str))
+                            ev.append((c.point, kind2, subst(text2, argt), g3))
+                    else:
+                        ev.append((c.point, 'call', '%s(%s)' % (self.name(tgt.name), ','.join(self.term(a) for a in c.args[1:]))))
             elif prog.classify(c) == 'std':
                 from program import VEC_MUTATORS
                 if c.callee_name() in VEC_MUTATORS and c.args and (c.args[0].ty or '').startswith('&mut'):
                     ev.append((c.point, 'call', 'std::%s(%s)' % (c.callee_name(), ','.join(self.term(a) for a in c.args))))
             elif prog.classify(c) == 'callback':
+                if c.callee_name() == 'clone' and c.args and self.term(c.args[0]).endswith('.PAYLOAD'):
+                    continue        # payload transfer: clone vs copy is abstracted
                 ev.append((c.point, 'call', 'user::%s' % c.callee_name()))
         from rules.gate import ret_cases
         if b.locals[0]['ty'] not in ('()', '!'):
@@ -189,8 +239,57 @@ class Gef:
         # order: reverse post-order of blocks, then statement index
         order = {blk: i for i, blk in enumerate(cfg.rpo)}
         ev.sort(key=lambda e: (order.get(e[0][0], 10 ** 6), e[0][1]))
-        out = [(self.guards(pt[0]), kind, text) for pt, kind, text in ev]
+        out = []
+        for e in ev:
+            pt, kind, text = e[0], e[1], e[2]
+            g = self.guards(pt[0])
+            if len(e) > 3:
+                g = tuple(sorted(set(g) | set(e[3]), key=str))
+            out.append((g, kind, text))
         return sort_independent(out)
+
+
+def split_top(s):
+    out, depth, cur = [], 0, ''
+    for ch in s:
+        if ch in '({':
+            depth += 1
+        elif ch in ')}':
+            depth -= 1
+        if ch == '|' and depth == 0:
+            out.append(cur)
+            cur = ''
+        else:
+            cur += ch
+    if cur:
+        out.append(cur)
+    return out
+
+
+def resort(text):
+    """re-sort the members of every phi{..} in a term string (needed after left/right swapping)"""
+    out = ''
+    i = 0
+    while i < len(text):
+        j = text.find('phi{', i)
+        if j < 0:
+            out += text[i:]
+            break
+        out += text[i:j]
+        depth = 0
+        k = j + 3
+        while k < len(text):
+            if text[k] == '{':
+                depth += 1
+            elif text[k] == '}':
+                depth -= 1
+                if depth == 0:
+                    break
+            k += 1
+        members = sorted(resort(m) for m in split_top(text[j + 4:k]))
+        out += 'phi{' + '|'.join(members) + '}'
+        i = k + 1
+    return out
 
 
 def sort_independent(seq):
@@ -203,7 +302,7 @@ def sort_independent(seq):
         if run:
             targets = [e[2].split(' := ')[0] for e in run]
             values = [e[2].split(' := ')[1] for e in run]
-            indep = len(set(targets)) == len(targets) and not any(t in v for t in targets for v in values)
+            indep = len(set(targets)) == len(targets)        # reads carry epochs, so the order of writes to distinct places is immaterial
             out.extend(sorted(run) if indep else run)
             del run[:]
     for e in seq:
@@ -219,8 +318,130 @@ def sort_independent(seq):
     return tuple(out)
 
 
-def gef(prog, fn, mirror=False):
-    return Gef(prog, fn, mirror).effects()
+def subst(text, argt):
+    if '<P' not in text:
+        return text
+    import re
+    return re.sub(r'<P\d+>', lambda m: argt.get(m.group(0), m.group(0)), text)
+
+
+def group_by_guard(form):
+    """effects under different guard sets are on different paths or ordered by construction of the guards: group the
+    effects by guard set (groups sorted), keeping the order inside a group"""
+    groups = {}
+    for e in form:
+        groups.setdefault(e[0], []).append(e)
+    out = []
+    for g in sorted(groups, key=str):
+        out.extend(groups[g])
+    return tuple(out)
+
+
+def gef(prog, fn, mirror=False, inline=False):
+    key = ('gef', fn.path, mirror, inline)
+    if key not in prog._summ_cache:
+        prog._summ_cache[key] = group_by_guard(Gef(prog, fn, mirror, inline=inline).effects())
+    return prog._summ_cache[key]
+
+
+def is_side_cond(c):
+    """Eq(x, node(p).left|right) with x not EMPTY_REF"""
+    if not c.startswith('Eq(') or 'EMPTY_REF' in c:
+        return None
+    for side in ('left', 'right'):
+        if c.endswith('.%s)' % side) or ('.%s,' % side) in c:
+            return side
+    return None
+
+
+def canon_side(form):
+    """express every side condition through `.left` (x == p.right  <=>  !(x == p.left) for a linked non-root child)"""
+    res = []
+    for g, kind, text in form:
+        g2 = []
+        for c, tr in g:
+            if isinstance(tr, bool) and is_side_cond(c) == 'right':
+                c2 = c.replace('.right)', '.left)').replace('.right,', '.left,')
+                if c2.startswith('Eq(') and c2.endswith(')'):
+                    inner = c2[3:-1]
+                    depth = 0
+                    for i, ch in enumerate(inner):
+                        if ch == '(':
+                            depth += 1
+                        elif ch == ')':
+                            depth -= 1
+                        elif ch == ',' and depth == 0:
+                            a, b2 = inner[:i], inner[i + 1:]
+                            if a > b2:
+                                a, b2 = b2, a
+                            c2 = 'Eq(%s,%s)' % (a, b2)
+                            break
+                g2.append((c2, not tr))
+            else:
+                g2.append((c, tr))
+        res.append((tuple(sorted(set(g2), key=str)), kind, text))
+    return res
+
+
+def self_symmetric(form):
+    """(has side conditions, symmetric?, first difference)"""
+    has = any(isinstance(tr, bool) and is_side_cond(c) for g, _, _ in form for c, tr in g)
+    if not has:
+        return False, True, None
+    a = sorted(canon_side(form), key=str)
+    b = sorted(canon_side(mirror_form(form)), key=str)
+    if a == b:
+        return True, True, None
+    sa, sb = set(map(str, a)), set(map(str, b))
+    only_a = [x for x in a if str(x) not in sb]
+    only_b = [x for x in b if str(x) not in sa]
+    d = 'no mirror counterpart for %s' % (fmt(only_a[0]) if only_a else fmt(only_b[0]))
+    return True, False, d
+
+
+def side_partitions(form):
+    """for every side-predicate guard C of the form: (C, effects under C=True with C removed, effects under C=False with C removed)"""
+    conds = []
+    for g, kind, text in form:
+        for c, tr in g:
+            if isinstance(tr, bool) and is_side_cond(c) and c not in conds:
+                conds.append(c)
+    out = []
+    for c in conds:
+        t_side = tuple((tuple(x for x in g if x[0] != c), kind, text) for g, kind, text in form if (c, True) in g)
+        f_side = tuple((tuple(x for x in g if x[0] != c), kind, text) for g, kind, text in form if (c, False) in g)
+        out.append((c, t_side, f_side))
+    return out
+
+
+def mirror_form(form):
+    from hircanon import swap_lr
+
+    def mt(x):
+        return swap_lr(x) if isinstance(x, str) else x
+    res = []
+    for g, kind, text in form:
+        g2 = []
+        for c, tr in g:
+            c2 = swap_lr(c)
+            # keep == operands sorted after the swap
+            if c2.startswith('Eq(') and c2.endswith(')'):
+                inner = c2[3:-1]
+                depth = 0
+                for i, ch in enumerate(inner):
+                    if ch == '(':
+                        depth += 1
+                    elif ch == ')':
+                        depth -= 1
+                    elif ch == ',' and depth == 0:
+                        a, b2 = inner[:i], inner[i + 1:]
+                        if a > b2:
+                            a, b2 = b2, a
+                        c2 = 'Eq(%s,%s)' % (a, b2)
+                        break
+            g2.append((resort(c2), tr))
+        res.append((tuple(sorted(g2, key=str)), kind, resort(mt(text))))
+    return sort_independent(res)
 
 
 def first_diff(a, b):
